@@ -342,6 +342,9 @@ def label_class(label):
     """'sup[1:frac]|empty-mi@0/1' -> 'sup|empty-mi': outermost construct + deviation operators (paths dropped)"""
     parts = label.split("|")
     head = parts[0].split("[")[0]
+    if head.startswith("emptybase:"):          # emptybase:<kind of empty script>:<neighbour term>:<tail> -> the neighbour is not part of the class
+        f = parts[0].split(":")
+        head = ":".join([f[0], f[1], f[-1]])
     return "|".join([head] + [p.split("@")[0] for p in parts[1:]])
 
 
@@ -433,9 +436,27 @@ def _gen_cases(tier):
         nm = terms.shape_name(sh)
         out.append(("chemctx-row:" + nm, row_(mi_("C"), mo_("="), terms.build(sh, terms.Filler("mixed")))))
         out.append(("chemctx-cells:" + nm, el_("mtable", el_("mtr", el_("mtd", mi_("C")), el_("mtd", mo_("=")), el_("mtd", terms.build(sh, terms.Filler("mixed")))))))
+    # empty-base scripts ({}^2, {}_1, {}_1^2 - what TeX writes for a prescript) with every depth-1 term as the NEXT sibling and a leaf,
+    # a scripted leaf, a fence or nothing after it; also two empty-base scripts in a row, and the script between a leaf and the term:
+    # the search for "the base these scripts belong to" walks over the neighbours and the conversion then removes a range of siblings
+    from terms import mi, mn, mo, mtext, row, el
+    empties = [("sup", lambda: el("msup", el("mrow"), mn("8"))), ("sub", lambda: el("msub", el("mrow"), mn("7"))),
+               ("subsup", lambda: el("msubsup", el("mrow"), mn("7"), mn("8"))), ("mi-sup", lambda: el("msup", mi(""), mn("8")))]
+    tails = [("end", lambda: []), ("leaf", lambda: [mi("w")]), ("sleaf", lambda: [el("msub", mi("w"), mn("6"))]), ("op-leaf", lambda: [mo("+"), mi("w")]),
+             ("empty-then-leaf", lambda: [el("msub", el("mrow"), mn("5")), mi("w")])]
+    scripted = [s_ for s_ in terms.spine_shapes(2) if s_ is not None and s_[1] == 0 and s_[0] in ("sup", "sub", "subsup", "mpost", "mpre", "over", "under")]
+    for sh in terms.spine_shapes(1) + scripted:       # + every depth-1 term as the BASE of a script element
+        if sh is None:
+            continue
+        nm = terms.shape_name(sh)
+        for en, ef in empties:
+            for tn_, tf in tails:
+                out.append((f"emptybase:{en}:{nm}:{tn_}", row(ef(), terms.build(sh, terms.Filler("mixed")), *tf())))
+            out.append((f"emptybase:{en}:{nm}:after-leaf", row(mi("v"), ef(), terms.build(sh, terms.Filler("mixed")), mi("w"))))
+            out.append((f"emptybase:{en}:{nm}:two", row(ef(), el("msub", el("mrow"), mn("5")), terms.build(sh, terms.Filler("mixed")), mi("w"))))
+            out.append((f"emptybase:{en}:{nm}:behind", row(mi("v"), terms.build(sh, terms.Filler("mixed")), ef(), mi("w"))))
     # runs of two to four identical single-character tokens (the shapes the token-merging passes look for: blanks, primes, dots, digits,
     # letters, bars, dashes) in front of a leaf, a non-leaf element or nothing, and after nothing, a leaf or a non-leaf element
-    from terms import mi, mn, mo, mtext, row, el
     toks = [("mi_", lambda: mi("_")), ("mo_", lambda: mo("_")), ("nbsp", lambda: mtext("\u00a0")), ("prime", lambda: mo("\u2032")), ("apos", lambda: mo("'")), ("dot", lambda: mo(".")),
             ("digit", lambda: mn("1")), ("letter", lambda: mi("x")), ("bar", lambda: mo("|")), ("minus", lambda: mo("-")), ("eq", lambda: mo("=")), ("text", lambda: mtext("a")),
             ("comma", lambda: mo(",")), ("bang", lambda: mo("!")), ("mi-dots", lambda: mi("."))]
